@@ -424,16 +424,39 @@ class SymFloat:
     def __rsub__(self, o):
         return self._bin(o, lambda a, b: z3.fpSub(RNE, a, b), lambda a, b: a - b, True)
 
+    @staticmethod
+    def _int_factor(x):
+        """x as a symbolic integer if it is one (SymInt, or the exact float of one): a product with a symbolic float is kept linear by
+        forking over the integer's values (relay leg counts, small multipliers; more than 128 values is unsupported)"""
+        if isinstance(x, SymInt) and not x.bv and not z3.is_int_value(z3.simplify(x.term)):
+            return x
+        if isinstance(x, SymFloat) and not x.ieee:
+            t = x.term
+            if z3.is_app(t) and t.decl().kind() == z3.Z3_OP_TO_REAL and not z3.is_int_value(z3.simplify(t.arg(0))):
+                return SymInt(t.arg(0))
+        return None
+
     def __mul__(self, o):
+        if not self.ieee and not z3.is_rational_value(z3.simplify(self.term)):
+            k = SymFloat._int_factor(o)
+            if k is not None:
+                return self._bin(concretize_int(k, limit=128), lambda a, b: z3.fpMul(RNE, a, b), lambda a, b: a * b)
         if isinstance(o, SymFloat) and not self.ieee and not o.ieee:
             from . import floatmodel
             if o.term.eq(self.term):
                 return SymFloat(floatmodel.rnd(floatmodel.sq(self.term)))
             if not (z3.is_rational_value(z3.simplify(o.term)) or z3.is_rational_value(z3.simplify(self.term))):
+                k = SymFloat._int_factor(self)
+                if k is not None:
+                    return o * concretize_int(k, limit=128)
                 raise E.Unsupported('product of two different symbolic floats (non-linear) in the reals-with-rounding model')
         return self._bin(o, lambda a, b: z3.fpMul(RNE, a, b), lambda a, b: a * b)
 
     def __rmul__(self, o):
+        if not self.ieee and not z3.is_rational_value(z3.simplify(self.term)):
+            k = SymFloat._int_factor(o)
+            if k is not None:
+                return self._bin(concretize_int(k, limit=128), lambda a, b: z3.fpMul(RNE, a, b), lambda a, b: a * b, True)
         return self._bin(o, lambda a, b: z3.fpMul(RNE, a, b), lambda a, b: a * b, True)
 
     def _div(self, o, swap):
